@@ -63,11 +63,21 @@ ALL_STD = STD["C01"] + STD["C02"] + STD["C05"]
 LEFT = [("LEFT", "SPECLEFT", False)]
 
 
+def byval_violations(ctx):
+    out = []
+    for pre in ("", "R"):
+        for parts in ctx.i.get(pre + "BYVAL", []):
+            if len(parts) >= 2 and parts[1] != "1":
+                out.append(v(ctx.c, "a haystack passed by value (an array moved together with the iterator) is searched differently from the "
+                                    "borrowed slice: the search read memory that is not the haystack", f"haystack {parts[0]}: {parts[1]}"))
+    return out
+
+
 def o_std(prop):
     def f(ctx):
         if ctx.c.kind != 0:
             return []
-        return search_vs_spec(ctx, STD[prop], ("", "R"))
+        return search_vs_spec(ctx, STD[prop], ("", "R")) + byval_violations(ctx)
     return f
 
 
@@ -93,7 +103,7 @@ def o_c07(ctx):
     for l in ctx.impl_lines:
         if "!panic" in l and not l.startswith("KINDCHK"):
             out.append(v(ctx.c, "a search panicked", l))
-    return out
+    return out + byval_violations(ctx)
 
 
 def o_c09(ctx):
@@ -281,15 +291,15 @@ def o_c11(ctx):
 
 # per property: tags compared impl-vs-model, per-case oracle, per-group oracle, profiles
 PROPS = {
-    "C01": dict(tags={"BUILD", "TABLE", "OVL", "OVLI", "ROVL", "ROVLI", "RT"}, oracle=o_std("C01")),
-    "C02": dict(tags={"BUILD", "TABLE", "FIND", "FINDI", "RFIND", "RFINDI", "RT"}, oracle=o_std("C02")),
+    "C01": dict(tags={"BUILD", "TABLE", "OVL", "OVLI", "ROVL", "ROVLI", "RT", "BYVAL"}, oracle=o_std("C01")),
+    "C02": dict(tags={"BUILD", "TABLE", "FIND", "FINDI", "RFIND", "RFINDI", "RT", "BYVAL"}, oracle=o_std("C02")),
     "C03": dict(tags={"BUILD", "TABLE", "LEFT", "RLEFT", "RT"}, oracle=o_left(1)),
     "C04": dict(tags={"BUILD", "TABLE", "LEFT", "RLEFT", "RT", "STATS"}, oracle=o_left(2)),
-    "C05": dict(tags={"BUILD", "TABLE", "NOS", "NOSI", "RNOS", "RNOSI", "RT"}, oracle=o_std("C05")),
+    "C05": dict(tags={"BUILD", "TABLE", "NOS", "NOSI", "RNOS", "RNOSI", "RT", "BYVAL"}, oracle=o_std("C05")),
     "C06": dict(tags={"BUILD", "OVL", "FIND", "NOS", "LEFT", "OVLI", "FINDI", "NOSI", "ROVL", "RFIND", "RNOS", "RLEFT",
                       "ROVLI", "RFINDI", "RNOSI", "RT"}, oracle=o_c06),
     "C07": dict(tags={"BUILD", "IMG", "TABLE", "OVL", "FIND", "NOS", "LEFT", "OVLI", "FINDI", "NOSI", "ROVL", "RFIND",
-                      "RNOS", "RLEFT", "RT", "KINDCHK", "KINDCHKI"}, oracle=o_c07, profiles=("debug", "release")),
+                      "RNOS", "RLEFT", "RT", "KINDCHK", "KINDCHKI", "BYVAL", "RBYVAL"}, oracle=o_c07, profiles=("debug", "release")),
     "C08": dict(tags={"BUILD", "TABLE", "OVL", "FIND", "NOS", "LEFT"}, oracle=o_c08, group=g_c08),
     "C09": dict(tags={"BUILD", "IMG", "RT", "ROVL", "RFIND", "RNOS", "RLEFT", "ROVLI", "RFINDI", "RNOSI", "OVL", "FIND",
                       "NOS", "LEFT"}, oracle=o_c09),
